@@ -75,10 +75,32 @@ pub struct RawDg {
     pub flips: Vec<(u16, u16)>,
 }
 
+/// Orders at which the bit matrix's rows cross 64-bit word boundaries in
+/// every possible way (row spans two and three words, order^2 on and off a
+/// multiple of 64).  Mixed in at a low rate wherever AdjacencyMatrix takes
+/// part, with sparse arcs so the cost stays bounded.
+pub const BIG_ORDERS: &[usize] = &[63, 64, 65, 66, 70, 96, 127, 128, 129, 130, 140];
+
 pub fn raw_dg(max_order: usize) -> impl Strategy<Value = RawDg> {
+    raw_dg_orders(order_strategy(max_order), max_order)
+}
+
+/// Like `raw_dg`, with about one case in 25 at one of `BIG_ORDERS`.
+pub fn raw_dg_big(max_order: usize) -> impl Strategy<Value = RawDg> {
+    raw_dg_orders(
+        prop_oneof![
+            24 => order_strategy(max_order),
+            1 => proptest::sample::select(BIG_ORDERS.to_vec()),
+        ]
+        .boxed(),
+        max_order,
+    )
+}
+
+pub fn raw_dg_orders(orders: BoxedStrategy<usize>, max_order: usize) -> impl Strategy<Value = RawDg> {
     let cap = (max_order * max_order).clamp(4, 700);
     (
-        order_strategy(max_order),
+        orders,
         prop_oneof![50 => Just(0_usize), 50 => 1..FAMILIES.len()],
         0..7_usize,
         any::<u16>(),
@@ -269,6 +291,14 @@ pub fn digraph(max_order: usize) -> BoxedStrategy<Dg> {
     raw_dg(max_order).prop_map(|r| build_dg(&r)).boxed()
 }
 
+/// Digraph together with the name of the family that produced it; about one
+/// case in 25 has one of `BIG_ORDERS` vertices.
+pub fn digraph_labeled_big(max_order: usize) -> BoxedStrategy<(Dg, String)> {
+    raw_dg_big(max_order)
+        .prop_map(|r| (build_dg(&r), family_name(&r).to_string()))
+        .boxed()
+}
+
 /// Digraph together with the name of the family that produced it.
 pub fn digraph_labeled(max_order: usize) -> BoxedStrategy<(Dg, String)> {
     raw_dg(max_order)
@@ -350,7 +380,15 @@ pub fn uweight(class: u8, raw: u32) -> usize {
 }
 
 pub fn weighted_usize(max_order: usize) -> BoxedStrategy<(WDg<usize>, String)> {
-    (raw_dg(max_order), any::<u8>(), vec(any::<u32>(), 64))
+    weighted_usize_from(raw_dg(max_order).boxed())
+}
+
+pub fn weighted_usize_big(max_order: usize) -> BoxedStrategy<(WDg<usize>, String)> {
+    weighted_usize_from(raw_dg_big(max_order).boxed())
+}
+
+fn weighted_usize_from(raw: BoxedStrategy<RawDg>) -> BoxedStrategy<(WDg<usize>, String)> {
+    (raw, any::<u8>(), vec(any::<u32>(), 64))
         .prop_map(|(r, class, ws)| {
             let d = build_dg(&r);
             let arcs = d
